@@ -6,16 +6,18 @@ VARIABLE meth
 Seed == atoi(IOEnv.VERIF_SEED)
 Thorough == IOEnv.VERIF_TIER = "thorough"
 Scen == {s \in [meth : {"MS", "SS", "DC"}, args : (SUBSET ArgNames) \ {{}}, pre : [ArgNames -> Vals \cup {0}], post : {"none", "p", "q", "gx"},
-               vals : [ArgNames -> Vals], iters : {1, 50}] :
+               vals : [ArgNames -> Vals], iters : {1, 50}, scaled : BOOLEAN] :
            /\ s.pre.p # 0 /\ s.pre.q # 0
            /\ (~Thorough => (s.pre.gu = 0 /\ s.vals.gu = 1 /\ (s.pre.gx = 0 \/ "gx" \in s.args)))
-           /\ (s.iters = 1 => ("gx" \in s.args \/ "gu" \in s.args))}
+           /\ (s.iters = 1 => ("gx" \in s.args \/ "gu" \in s.args))
+           \* scaled states/controls (C14 x C19): a thin slice of the space
+           /\ (s.scaled => s.post = "none" /\ s.iters = 50 /\ s.pre = [p |-> 1, q |-> 1, gx |-> 0, gu |-> 0])}
 InitS == meth \in Scen /\ Init
 NextS == UNCHANGED <<vars, meth>>
 Emit == LET s == meth
             snap == s.pre
             f == [args |-> s.args, snap |-> snap]
-        IN TLCSet(1, Append(TLCGet(1), [sc |-> [meth |-> s.meth, args |-> s.args, pre |-> s.pre, post |-> s.post, vals |-> s.vals, iters |-> s.iters],
+        IN TLCSet(1, Append(TLCGet(1), [sc |-> [meth |-> s.meth, args |-> s.args, pre |-> s.pre, post |-> s.post, vals |-> s.vals, iters |-> s.iters, scaled |-> s.scaled],
                                         data |-> DataOfCall(f, s.vals)]))
 Post == /\ ndJsonSerialize(IOEnv.OUT_FILE, TLCGet(1)) /\ PrintT(<<"emitted", Len(TLCGet(1))>>)
 ASSUME TLCSet(1, <<>>)
